@@ -211,7 +211,7 @@ def dist_layout(cases):
 
 LAYOUT_STREAM = dict(stream='layout', gen=gen_layout, oracle=oracle_layout, nontrivial=nontrivial_layout, distribution=dist_layout,
                      rule='(header shape, element shape, length, constructor, release path) drawn from the 8x16 size/alignment matrix, 18 constructors and 16 release paths (thorough: the full product); non-trivial = zero-sized, over-aligned or odd-sized header/element, length 0 or overflowing, or a release path other than a plain drop; distinct = distinct case tuples',
-                     cfgs=dict(quick=[('cfg_default', 'debug')], thorough=[('cfg_default', 'debug'), ('cfg_default', 'release'), ('cfg_nostd', 'debug')]))
+                     cfgs=dict(quick=[('cfg_default', 'debug'), ('cfg_default', 'release')], thorough=[('cfg_default', 'debug'), ('cfg_default', 'release'), ('cfg_nostd', 'debug'), ('cfg_nostd', 'release'), ('cfg_all', 'release')]))
 
 def c05_side(facts):
     L = facts.get('layout', {})
